@@ -146,6 +146,21 @@ def ref_apply(ref, op, hbar=2.0):
         T, nbar = pars
         ref.apply_SYd(regs, math.sqrt(T) * np.eye(2), Y=(1 - T) * (2 * nbar + 1) * np.eye(2))
         return True
+    if cls == "PassiveChannel":
+        a = op["apars"][0]
+        T = np.array(a["re"], dtype=float) + 1j * np.array(a.get("im") or np.zeros_like(np.array(a["re"])), dtype=float)
+        X = np.block([[T.real, -T.imag], [T.imag, T.real]])
+        ref.apply_SYd(regs, X, Y=np.eye(2 * len(regs)) - X @ X.T)
+        return True
+    if cls == "Gaussian":
+        V = np.array(op["apars"][0]["re"], dtype=float) / (hbar / 2)
+        r = np.array(op["apars"][1]["re"], dtype=float) / sc
+        for m in regs:
+            ref.reset_mode(m)
+        ix = ref.idx(regs)
+        ref.V[np.ix_(ix, ix)] = V
+        ref.mu[ix] = r
+        return True
     if cls in ("Vacuum", "Coherent", "Squeezed", "DisplacedSqueezed", "Thermal"):
         m = regs[0]
         ref.reset_mode(m)
@@ -168,11 +183,29 @@ def ref_apply(ref, op, hbar=2.0):
 
 
 def reference(spec, hbar=2.0):
-    ref = RefState(spec["n"])
+    """reference state over all modes that ever exist; `ref.active` lists the modes alive at the end (ascending)"""
+    n_total = spec["n"] + sum(len(o["regs"]) for o in spec["ops"] if o["cls"] == "New")
+    ref = RefState(n_total)
+    alive = set(range(spec["n"]))
     for op in spec["ops"]:
+        if op["cls"] == "Del":
+            for m in op["regs"]:
+                ref.reset_mode(m)
+                alive.discard(m)
+            continue
+        if op["cls"] == "New":
+            alive |= set(op["regs"])
+            continue
         if not ref_apply(ref, op, hbar):
             return None
+    ref.active = sorted(alive)
     return ref
+
+
+def restrict_moments(m, modes):
+    a, N, M = m[:3]
+    ix = np.array(modes, dtype=int)
+    return a[ix], N[np.ix_(ix, ix)], M[np.ix_(ix, ix)]
 
 
 # ---------------------------------------------------------------- moments of SF state objects
@@ -273,10 +306,10 @@ def moment_dist(a, b):
 
 # ---------------------------------------------------------------- running programs
 
-def run_spec(sf, spec, backend, hbar=None, **backend_options):
+def run_spec(sf, spec, backend, hbar=None, op_cache=None, **backend_options):
     if hbar is not None:
         sf.hbar = hbar
-    prog, _ = progs.build(spec)
+    prog, _ = progs.build(spec, op_cache=op_cache)
     eng = sf.Engine(backend, backend_options=backend_options)
     res = eng.run(prog)
     return res.state, eng
@@ -358,3 +391,33 @@ def correlated_prefix(rng, n):
     if rng.random() < 0.6:
         ops.append(dict(cls="LossChannel", regs=[rng.randrange(n)], pars=[rng.choice([0.5, 0.8])]))
     return ops
+
+
+def rand_unitary(nprng, k):
+    z = nprng.normal(size=(k, k)) + 1j * nprng.normal(size=(k, k))
+    q, r = np.linalg.qr(z)
+    return q * (np.diag(r) / np.abs(np.diag(r)))
+
+
+def rand_passive_op(rng, nprng, n, lossy=None):
+    """PassiveChannel on 1-3 modes in arbitrary order; unitary or uniformly/non-uniformly lossy"""
+    k = rng.randint(1, min(3, n))
+    regs = rng.sample(range(n), k)
+    T = rand_unitary(nprng, k)
+    lossy = rng.random() < 0.5 if lossy is None else lossy
+    if lossy:
+        T = np.diag(np.sqrt([rng.choice([0.3, 0.6, 1.0]) for _ in range(k)])) @ T
+    T = np.round(T, 6)
+    return dict(cls="PassiveChannel", regs=regs, pars=[], apars=[dict(re=T.real.tolist(), im=T.imag.tolist())])
+
+
+def rand_gaussian_prep_op(rng, nprng, n, hbar=2.0):
+    """Gaussian(V, r, decomp=False) on 1-3 modes in arbitrary order; V from a random program's state (physical)"""
+    k = rng.randint(1, min(3, n))
+    regs = rng.sample(range(n), k)
+    sub = rand_gaussian_program(rng, n=k, length=rng.randint(1, 5))
+    ref = reference(sub, 2.0)
+    V = np.round(ref.V * (hbar / 2), 9)
+    V = (V + V.T) / 2
+    r = np.round(ref.mu * math.sqrt(hbar / 2), 9)
+    return dict(cls="Gaussian", regs=regs, pars=[], apars=[dict(re=V.tolist()), dict(re=r.tolist())], kw=dict(decomp=False))
